@@ -19,6 +19,8 @@ PROP = dict(
          "its own format, and ~30 single-line corruptions per line (all lines of the first sources, sampled for the rest) "
          "x skip/no-skip. distinct = distinct record text",
     trusted_base=["kernel evaluation (`decide`) of small concrete witnesses and of one 42-row table fact; no native_decide",
+                  "`chewing-cli info` (metadata given with -n/-c/-l/-r is reported by both back ends, text and JSON) is checked by "
+                  "the oracle only, not modelled",
                   "clap argument parsing, process plumbing and file I/O of the tool (driven with valid flags)",
                   "the trie file format (C11) and SQLite (C09) are abstracted to entry lists: insert semantics, enumeration "
                   "order and lookup order are modelled and compared with the real files on every run, not derived from bytes",
@@ -33,18 +35,34 @@ PROP = dict(
 
 MANIFEST = dict(
     text="Lean 4 theorems (Chewing/Props/C20.lean) over an executable model of tools/src/{init_database,dump}.rs (parse_line, "
-         "the compile loop with CSV header skip / error collection / --skip-invalid, both dump formats; constants regenerated "
-         "from the source) and of both builders at entry-list level: parse_dump (every well-formed record, both delimiters, "
-         "one-character frequency rule), dump_lists_last_records (both back ends enumerate exactly the last record per "
-         "(syllables, phrase)), dump_compile_roundtrip (dump -> compile -> entries equal including order, trie and SQLite, "
-         "by induction over entry lists with sort idempotence / permutation invariance), recompiled_lookup_trie, "
-         "malformed_reported / reported_iff / skip_invalid_keeps_valid. Tie: translator + correspondence through the REAL "
-         "chewing-cli binary built from the tree (exit status, reported line numbers, output existence, full dump texts, "
-         "library lookups), whose harness oracle evaluates the statement directly. Known findings F27 / F18 / F34 are proved "
-         "as refutations and excluded by hypothesis.",
+         "BufRead::lines, the compile loop with CSV header skip / error collection / --skip-invalid, both dump formats; literal "
+         "constants and the one comparator arm a pending trie fix rewrites are regenerated from the source) and of both builders "
+         "at entry-list level. THEOREMS: wellformed_source_roundtrip (every file of well-formed free-style lines - quotes around "
+         "phrase / frequency / the syllable part, repeated delimiters, any comma/whitespace between syllables, # comments, "
+         "duplicates, LF/CRLF/no final newline, CSV header - both back ends, all flags: compiles with nothing reported, the dump "
+         "lists exactly the last record per (syllables, phrase) with one-character frequencies zeroed unless kept, the dump text "
+         "compiles again to the same entries in the same order and dumps to the same text, lookups agree); parse_dump / "
+         "parse_source_line(_quoted) per line; dump_compile_roundtrip for everything the compiler accepts whose entries are "
+         "well-formed records; recompiled_lookup_iff (lookup order survives exactly outside class F34Changes = SQLite, "
+         "one-syllable key, candidates not in ascending text order) with recompiled_lookup_sqlite_single (what the recompiled "
+         "SQLite file answers); malformed_reported / reported_iff (exactly the rejected lines are reported, with their 1-based "
+         "numbers; nothing is built unless --skip-invalid) / skip_invalid_keeps_valid; accepted_iff + rejected_cause (exactly "
+         "which lines parse_line accepts). REFUTED on the unchanged code, with witness + partial theorem each: MalformedFull "
+         "(F27: lines without syllables, with a syllable/character count mismatch, an empty phrase, or an unchecked "
+         "one-character frequency are accepted), RoundTripFull (F18: a first-tone mark is not dumped), RecompiledLookupFull "
+         "(F34). CORRESPONDENCE: the REAL chewing-cli binary built from the tree is run on fixed, repository and generated "
+         "sources and on ~30 single-line corruptions per line; exit status, reported line numbers, output existence, complete "
+         "dump texts and library lookups (original and recompiled file) are recomputed by the model; the harness oracle "
+         "evaluates the property statement directly and classifies every failure exactly (known class or new).",
     note="Trusted: Lean kernel (axioms propext, Classical.choice, Quot.sound only), tools/extract.py, the harness and the "
-         "compiled model driver; clap and process plumbing; the trie and SQLite storage layers are modelled at the level of "
-         "entry lists and validated by correspondence (their byte-level behaviour belongs to C11 / C09).",
-    technique="Lean 4 proof (induction over lines / entry lists, sorted-permutation uniqueness, kernel-evaluated witnesses) over a "
-              "translator-regenerated model; sampled model/implementation correspondence through the real command-line binary",
+         "compiled model driver; clap, process plumbing, `info` metadata pass-through (oracle only). The trie and SQLite storage "
+         "layers are NOT derived from bytes here: the model assumes of the trie file exactly (a) insert = replace same "
+         "(key, phrase text) else append, (b) entries() = depth-first over keys sorted by syllable code with each chain of "
+         "nested keys emitted deepest first, each leaf stably sorted by the write() comparator, (c) lookup = the leaf in stored "
+         "order, (d) no 16-bit length overflow (leaf < 64 KiB, < 65536 children); and of SQLite INSERT OR REPLACE, primary-key "
+         "enumeration and ORDER BY sort_id, freq DESC, phrase DESC. These are validated by correspondence on every run; their "
+         "byte-level justification belongs to C11 (Der/TrieCodec) / C09.",
+    technique="Lean 4 proof (induction over lines / entry lists, sorted-permutation uniqueness, stable-sort idempotence for an "
+              "asymmetric comparator, kernel-evaluated witnesses) over a translator-regenerated model; sampled "
+              "model/implementation correspondence through the real command-line binary",
 )
